@@ -259,16 +259,13 @@ func (v *env) runBlock(o *hx.Out, k int, plans []txPlan) {
 		treeStats(o, p.tree, 1, &md, &nn)
 		o.Count(fmt.Sprintf("tree:depth=%d", md))
 		o.Count("tree:nodes=" + bucket(nn))
-		fin, cat := unsafeShapes(p.tree)
-		switch {
-		case fin && cat:
-			o.Count("shape:call-in-finally+call-in-catch-with-finally")
-		case fin:
+		if callInFinally(p.tree) {
 			o.Count("shape:call-in-finally")
-		case cat:
-			o.Count("shape:call-in-catch-with-finally")
-		default:
+		} else {
 			o.Count("shape:safe")
+		}
+		if callInCatchWithFinally(p.tree) {
+			o.Count("shape:call-in-catch-with-finally")
 		}
 		if nn > 1 {
 			o.Seen(planText(p))
@@ -332,21 +329,14 @@ func faultClass(s string) string {
 
 // classify names the shape of a deviation of the real code from the specification.
 // The implementation model is proved equal to the specification on `safe` trees
-// (Props/C04 impl_refines_spec_partial); its known deviations live in the complement, so a
-// deviation is "known" only if the real code agrees with the implementation model AND the
-// tree has the corresponding unsafe shape.
+// (Props/C04 impl_refines_spec_partial); its known deviation lives in the complement (a call
+// inside a finally block), so a deviation is "known" only if the real code agrees with the
+// implementation model AND the tree has that shape.
 func classify(t []*Node, realEqImpl bool, what string) string {
-	fin, cat := unsafeShapes(t)
-	if !realEqImpl || (!fin && !cat) {
-		return "atomicity-" + what
+	if realEqImpl && callInFinally(t) {
+		return "finally-call-rollback"
 	}
-	switch {
-	case fin && cat:
-		return "catch-finally-mixed"
-	case cat:
-		return "catch-finally-unwrapped"
-	}
-	return "finally-call-rollback"
+	return "atomicity-" + what
 }
 
 func main() {
